@@ -94,7 +94,8 @@ CLAIMS = {
         "text": "The data-phase send helper is a loop over 0..repeat_amount with exactly one send of the same packet per iteration; every DATA/ACK of both "
                 "workers is sent inside it and handshake replies are single sends; repeat_amount = Server.duplicate_packets + 1 at both Worker::new sites; "
                 "Config::new returns Ok only with duplicate_packets in 0..=254 (abstract interpretation of the parser loop); Server::new copies it; the "
-                "tftpd binary builds Config only via Config::new. Completion when both sides duplicate is not decided.",
+                "tftpd binary builds Config only via Config::new; an iteration of the repeat loop exists in which no send is fatal (a surplus copy that "
+                "cannot be delivered does not abort the transfer, defect D8). Completion when both sides duplicate is not decided.",
         "design_ref": "DESIGN.md section 4 C16",
         "note": TB + " A-CONFIG.",
         "technique": "loop-structure and who-may-send queries on the inlined supergraph + abstract interpretation of Config::new",
